@@ -21,7 +21,7 @@ _BUILTIN_NAMES = {'float': float, 'int': int, 'bool': bool, 'str': str, 'list': 
 
 _MISSING = object()
 import operator as _operator
-_PURE_STDLIB = {'operator': _operator, 'math': math}
+_PURE_STDLIB = {'math': math}
 
 
 def funcs(ctx, module=None, stubs=None):
@@ -79,14 +79,30 @@ def funcs(ctx, module=None, stubs=None):
         mods_ = ([ctx.prog.modules[module]] if module in ctx.prog.modules else []) + list(ctx.prog.modules.values())
         for m in mods_:
             for imp in getattr(m, 'imports', []):
+                if isinstance(imp, ast.ImportFrom) and imp.level == 0 and orders.pure_module(imp.module) is not None:
+                    for al in imp.names:
+                        if (al.asname or al.name) == nm:
+                            return getattr(orders.pure_module(imp.module), al.name)
                 if isinstance(imp, ast.ImportFrom) and imp.module in _PURE_STDLIB and imp.level == 0:
                     for al in imp.names:
                         if (al.asname or al.name) == nm and hasattr(_PURE_STDLIB[imp.module], al.name):
                             return getattr(_PURE_STDLIB[imp.module], al.name)
+                if isinstance(imp, ast.Import):
+                    for al in imp.names:
+                        if (al.asname or al.name) == nm and orders.pure_module(al.name) is not None:
+                            return orders.pure_module(al.name)
         # a repository class referred to by name (static methods, class constants, construction)
         quals = [q for q, ci in ctx.prog.classes.items() if ci.name == nm]
         if module is not None and (module + '.' + nm) in quals:
             quals = [module + '.' + nm]
+        if len(quals) > 1 and module in ctx.prog.modules:
+            # several classes of that name: the one the module imports (from tracklib.core import Edge -> a module of that package)
+            for imp in getattr(ctx.prog.modules[module], 'imports', []):
+                if isinstance(imp, ast.ImportFrom) and imp.level == 0 and imp.module and any((al.asname or al.name) == nm for al in imp.names):
+                    al = [al for al in imp.names if (al.asname or al.name) == nm][0]
+                    picked = [q for q in quals if q == imp.module + '.' + al.name or (q.startswith(imp.module + '.') and q.endswith('.' + al.name))]
+                    if len(picked) == 1:
+                        quals = picked
         if len(quals) == 1:
             if ('class', quals[0]) not in exprs:
                 exprs[('class', quals[0])] = ClassRef(ctx, quals[0], fn)
@@ -213,7 +229,10 @@ class ClassRef(orders.PyStub):
         for name, node in methods_of(ctx, clsqual).items():
             params = [a.arg for a in node.args.args]
             static = any(isinstance(d, ast.Name) and d.id in ('staticmethod',) for d in node.decorator_list) or not params or params[0] not in ('self', 'cls')
-            if static:
+            if any(isinstance(d, ast.Name) and d.id == 'classmethod' for d in node.decorator_list) and params:
+                # a class method reached through the class: its first parameter is the class object itself
+                setattr(self, name, (lambda node_: lambda *a, **k: orders.make_func(node_, fn)(self, *a, **k))(node))
+            elif static:
                 setattr(self, name, orders.make_func(node, fn))
             elif name != '__init__':
                 # an instance method reached through the class, with the receiver passed explicitly: Track.helper(self, ...)
